@@ -100,14 +100,17 @@ def known_class(pw):
     return False
 
 
-def mk(rl1, rl2, exclude_known=False):
-    def check(RL: int, rp1: int, sp1: int, sl1: int, rp2: int, sp2: int, sl2: int, r: int) -> bool:
+def mk(rl1, rl2, sl1, sl2, exclude_known=False, RLMAX=3):
+    """gap LENGTHS are shard keys (they select dict shapes); gap POSITIONS and the reference length are symbolic"""
+
+    def check(RL: int, rp1: int, sp1: int, rp2: int, sp2: int, r: int) -> bool:
         """
-        pre: 1 <= RL <= 3 and 0 <= rp1 <= RL and 0 <= rp2 <= RL
-        pre: 0 <= sl1 <= 2 and 0 <= sl2 <= 2 and 0 <= sp1 <= 4 and 0 <= sp2 <= 4
+        pre: 1 <= RL <= RLMAX and 0 <= rp1 <= RL and 0 <= rp2 <= RL
+        pre: 0 <= sp1 <= RLMAX + 2 and 0 <= sp2 <= RLMAX + 2
         pre: 0 <= r < RL
         post: _
         """
+        _ = RLMAX
         rg1 = {rp1: rl1} if rl1 else {}
         rg2 = {rp2: rl2} if rl2 else {}
         og1 = {sp1: sl1} if sl1 else {}
@@ -191,10 +194,10 @@ def validate(tier):
 
 ENCODED = [("src/cogent3/app/align.py", ["_GapOffset.__init__", "_GapOffset.__getitem__", "_merged_gaps", "_gap_difference", "_subset_gaps_to_align_coords", "_combined_refseq_gaps", "_gaps_for_injection"])]
 BOUNDS = {
-    "quick": ["two pairwise alignments to one reference; reference length 1..3; each row has at most ONE gap run; reference-row gap lengths are shard keys in {0,1,2}; other-row gap length 0..2, all gap positions free inside the sequences",
+    "quick": ["two pairwise alignments to one reference; reference length 1..2 (symbolic); each row has at most ONE gap run; gap lengths are shard keys (reference row 0..2, at most one non-reference row gapped, length 0..2); all gap positions symbolic inside the sequences",
               "bounded small integers because the code keys dicts by position (CrossHair must pick concrete keys)"],
 }
-BOUNDS["thorough"] = ["as quick with reference-row gap lengths up to 3"]
+BOUNDS["thorough"] = ["reference length 1..3, reference-row gap lengths up to 3, other-row lengths 0..2 each, both orders of the two pairwise alignments (many shards need > 10 min each: this tier is sized in hours)"]
 ASSUMPTIONS = [
     "inputs are valid pairwise alignments: equal row lengths, no column that is a gap in both rows",
     "the composition of the helper functions reproduces pairwise_to_multiple (validated each run against the real function on concrete alignments); Alignment construction / to_type at the end is outside",
@@ -206,13 +209,23 @@ TRUSTED = ["the column reader in props/c18.py"]
 
 def obligations(tier):
     T = tier == "thorough"
-    mx = 3 if T else 2
     obs = []
-    for rl1 in range(0, mx + 1):
-        for rl2 in range(0, mx + 1):
-            # strict form (may hit the recorded finding) and the form that excludes exactly the recorded class (must hold)
-            obs.append(Ob(f"merge/refgaps{rl1}_{rl2}", __name__, "mk", {"rl1": rl1, "rl2": rl2}, timeout=2400, group="merge", expect_known=KNOWN_KEY))
-            obs.append(Ob(f"merge_excl_known/refgaps{rl1}_{rl2}", __name__, "mk", {"rl1": rl1, "rl2": rl2, "exclude_known": True}, timeout=2400, group="merge"))
+    rls = range(0, 4) if T else range(0, 3)
+    sls = range(0, 3)
+    for rl1 in rls:
+        for rl2 in rls:
+            for sl1 in sls:
+                for sl2 in sls:
+                    if not T and (sl1 + sl2 > 2 or (sl1 and sl2) or (rl1, sl1) > (rl2, sl2)):
+                        continue  # quick: one order of the (interchangeable) pairwise alignments; at most one gapped non-reference row
+                    args = {"rl1": rl1, "rl2": rl2, "sl1": sl1, "sl2": sl2, "RLMAX": 3 if T else 2}
+                    tag = f"ref{rl1}_{rl2}/other{sl1}_{sl2}"
+                    if max(sl1, sl2) >= 2 and max(rl1, rl2) >= 1:
+                        # a gap run of length >= 2 has an interior: the recorded finding is possible here.
+                        obs.append(Ob(f"merge/{tag}", __name__, "mk", args, timeout=1800, group="merge", expect_known=KNOWN_KEY))
+                        obs.append(Ob(f"merge_excl_known/{tag}", __name__, "mk", dict(args, exclude_known=True), timeout=1800, group="merge"))
+                    else:
+                        obs.append(Ob(f"merge/{tag}", __name__, "mk", args, timeout=1800, group="merge"))
     return obs
 
 
@@ -222,11 +235,11 @@ KNOWN_KEY = "pairwise_to_multiple:injected-gap-strictly-inside-other-gap"
 def classify(name, args, cex, rep):
     if not name.startswith("merge/"):
         return None
-    rl1, rl2 = args["rl1"], args["rl2"]
+    rl1, rl2, sl1, sl2 = args["rl1"], args["rl2"], args["sl1"], args["sl2"]
     RL = cex["RL"]
     rg1 = {cex["rp1"]: rl1} if rl1 else {}
     rg2 = {cex["rp2"]: rl2} if rl2 else {}
-    og1 = {cex["sp1"]: cex["sl1"]} if cex["sl1"] else {}
-    og2 = {cex["sp2"]: cex["sl2"]} if cex["sl2"] else {}
-    pw = [(rg1, og1, RL + rl1 - cex["sl1"]), (rg2, og2, RL + rl2 - cex["sl2"])]
+    og1 = {cex["sp1"]: sl1} if sl1 else {}
+    og2 = {cex["sp2"]: sl2} if sl2 else {}
+    pw = [(rg1, og1, RL + rl1 - sl1), (rg2, og2, RL + rl2 - sl2)]
     return KNOWN_KEY if known_class(pw) else None
